@@ -445,6 +445,7 @@ func (sp *MsgSpec) Build() (*mail.Msg, []string, error) {
 			ops = append(ops, "delpart", encN(i))
 		}
 	}
+	var sharedBuf *bytes.Buffer
 	for i := range sp.Files {
 		f := &sp.Files[i]
 		var fo []mail.FileOption
@@ -526,10 +527,20 @@ func (sp *MsgSpec) Build() (*mail.Msg, []string, error) {
 				err = m.EmbedTextTemplate(f.Name, tpl, string(f.Content), fo...)
 			}
 		default:
+			var src io.Reader = bytes.NewReader(f.Content)
+			if pick(3) == 1 {
+				// one buffer of the caller, filled again for every file and for other purposes afterwards
+				if sharedBuf == nil {
+					sharedBuf = &bytes.Buffer{}
+				}
+				sharedBuf.Reset()
+				sharedBuf.Write(f.Content)
+				src = sharedBuf
+			}
 			if f.Attach {
-				err = m.AttachReader(f.Name, bytes.NewReader(f.Content), fo...)
+				err = m.AttachReader(f.Name, src, fo...)
 			} else {
-				err = m.EmbedReader(f.Name, bytes.NewReader(f.Content), fo...)
+				err = m.EmbedReader(f.Name, src, fo...)
 			}
 		}
 		if err != nil {
@@ -570,6 +581,10 @@ func (sp *MsgSpec) Build() (*mail.Msg, []string, error) {
 			continue
 		}
 		ops = append(ops, "file", encBool(f.Attach), encS(f.Name), encS(f.CType), encS(f.Desc), encS(modelEnc), cid, encS(tbe), encB(f.Content), encBool(f.Fails))
+	}
+	if sharedBuf != nil {
+		sharedBuf.Reset()
+		sharedBuf.Write(bytes.Repeat([]byte("#the caller went on using its buffer#"), 200))
 	}
 	switch pick(4) {
 	case 1:
